@@ -65,6 +65,9 @@ pub struct Exec {
     /// drop the `process` future after this many polls (if still pending)
     /// and start a new `process` on the same interface
     pub cancel_at: Option<u64>,
+    /// on restart the controller continues with the next message: the
+    /// delivery position is advanced to the next of these stream offsets
+    pub restart_bounds: Vec<usize>,
 }
 
 impl Exec {
@@ -82,6 +85,7 @@ impl Exec {
             gates: Vec::new(),
             eof_idle: false,
             cancel_at: None,
+            restart_bounds: Vec::new(),
         }
     }
     pub fn whole(sink: Sink, len: usize) -> Mode {
@@ -243,6 +247,8 @@ pub struct SimTransport<'a> {
     flushed: usize,
     idle: Rc<Cell<bool>>,
     zero_room: bool,
+    /// after a reconnect the controller no longer waits for answers lost with the old link
+    gates_on: bool,
 }
 
 impl SimTransport<'_> {
@@ -258,6 +264,9 @@ impl SimTransport<'_> {
     }
     fn limit(&self) -> usize {
         let mut lim = self.ex.stream.len();
+        if !self.gates_on {
+            return lim;
+        }
         for &(off, need) in &self.ex.gates {
             if self.flushed < need && off < lim {
                 lim = off;
@@ -508,6 +517,7 @@ pub fn drive<I: SimIface, const N: usize>(ex: &Exec) -> Out {
                     flushed: 0,
                     idle: idle.clone(),
                     zero_room: false,
+                    gates_on: true,
                 };
                 let mut cancel = ex.cancel_at;
                 let mut call_no = 0u32;
@@ -522,7 +532,13 @@ pub fn drive<I: SimIface, const N: usize>(ex: &Exec) -> Out {
                         Stop::Done(r) => {
                             out.results.push(Some(r));
                             match r {
-                                Err(Tok::Fault(_)) if ex.restart && call_no < 4 => continue,
+                                Err(Tok::Fault(_)) if ex.restart && call_no < 4 => {
+                                    if let Some(&b) = ex.restart_bounds.iter().find(|&&b| b >= tr.pos) {
+                                        tr.pos = b;
+                                    }
+                                    tr.gates_on = false;
+                                    continue;
+                                }
                                 _ => break,
                             }
                         }
@@ -572,3 +588,15 @@ pub fn drive<I: SimIface, const N: usize>(ex: &Exec) -> Out {
     out
 }
 
+
+/// Polls a future that never suspends (library code writing into a memory
+/// buffer) to completion; None if it returned Pending.
+pub fn now_or_never<F: Future>(fut: F) -> Option<F::Output> {
+    let mut fut = pin!(fut);
+    let wk = waker();
+    let mut cx = Context::from_waker(&wk);
+    match fut.as_mut().poll(&mut cx) {
+        Poll::Ready(x) => Some(x),
+        Poll::Pending => None,
+    }
+}
